@@ -23,6 +23,7 @@ from .filter_expressions import FilterExpressionLiteral
 from .filter_expressions import FilterQuery
 from .filter_expressions import FunctionExtension
 from .filter_expressions import LogicalExpression
+from .filter_expressions import PrefixExpression
 from .function_extensions import ExpressionType
 from .function_extensions import FilterFunction
 from .lex import tokenize
@@ -218,7 +219,13 @@ class JSONPathEnvironment:
             elif typ == ExpressionType.LOGICAL:
                 if not (
                     isinstance(
-                        arg, (FilterQuery, LogicalExpression, ComparisonExpression)
+                        arg,
+                        (
+                            FilterQuery,
+                            LogicalExpression,
+                            ComparisonExpression,
+                            PrefixExpression,
+                        ),
                     )
                     or self._function_return_type(arg)
                     in (ExpressionType.LOGICAL, ExpressionType.NODES)
